@@ -67,6 +67,20 @@ CHECKS['C08'] = dict(
     technique='TLA+ operational semantics + per-step read/write monitor, TLC over all executions',
     design_ref='DESIGN.md sections 3.3, 5 (C08)', engine='tlc-minipy')
 
+CHECKS['C01'] = dict(
+    text=_MP_TEXT + 'For every execution TLC prints the predicted observation (return value, ordered effect log of tracer calls and '
+         'context-manager enter/exit, escaping exception type, log length at the raise); each is replayed with the same decision '
+         'vector into the function converted by the real malt (to_graph and the convert decorator; thorough: five option sets '
+         'incl. recursive=False and BUILTIN_FUNCTIONS/EQUALITY_OPERATORS) and must agree. The exploration runs under the '
+         'Liveness monitor so that a divergence is attributed by the specification to an analysis defect already listed as a '
+         'known finding, or reported.',
+    note=_MP_NOTE + ' Language covered so far: assignments, expression statements, del, if/else, while, for over tracer lists, '
+         'break/continue/return, try/except/finally with explicit raise, with, nested defs with closures/nonlocal, calls of '
+         'local functions (3 forms), and/or/not, conditional expressions. Executions in which a callee-raised exception is '
+         'caught by the caller are outside the class (flag oc) and skipped, as the property documents.',
+    technique='TLA+ operational semantics as oracle, TLC enumerates all executions, each replayed into the converted function',
+    design_ref='DESIGN.md sections 3.1, 4, 5 (C01)', engine='tlc-minipy')
+
 NOT_CLAIMED = {}
 
 
